@@ -86,6 +86,7 @@ type Rule struct {
 	Threads       float64 `json:"threads,omitempty"` // split: request for chunks
 	MemGB         float64 `json:"mem_gb,omitempty"`
 	Chunks        int    `json:"chunks,omitempty"` // split: force chunk count (+1; 0 = hash)
+	EmptyPct      int    `json:"empty_pct,omitempty"` // chance that a collection-typed output (top nesting level) is empty
 	Bools         string `json:"bools,omitempty"`  // "true" / "false": every bool output leaf of the job has this value
 }
 
@@ -115,6 +116,7 @@ type Spec struct {
 	PassThroughPct int `json:"pass_through_pct,omitempty"`
 	// Set by the probe from a matching rule: value of every bool leaf.
 	ForceBool *bool `json:"-"`
+	EmptyPct  int   `json:"-"`
 	// Side directory for files created outside the pipestance.
 	OutsideDir string `json:"outside_dir,omitempty"`
 	// Arrays produced have distinct elements by construction.
